@@ -123,3 +123,4 @@ pub fn replay_cases(path: &std::path::Path) -> Vec<String> {
     std::fs::read_to_string(path).unwrap_or_default().lines()
         .filter_map(|l| l.strip_prefix("case: ").map(|s| s.to_string())).collect()
 }
+pub mod rib;
